@@ -115,7 +115,18 @@ func (p *Pool) Put(x any) {
 		if simhook.RaceEnabled {
 			simhook.RaceReleaseMerge(poolRaceAddr(x))
 		}
-		p.items = append(p.items, x)
+		// no append/copy here: the runtime race-annotates growslice/slicecopy even
+		// inside norace functions, which would make pool internals look racy
+		n := len(p.items)
+		if n == cap(p.items) {
+			grown := make([]any, n, 2*n+8)
+			for i := 0; i < n; i++ {
+				grown[i] = p.items[i]
+			}
+			p.items = grown
+		}
+		p.items = p.items[:n+1]
+		p.items[n] = x
 	}
 	simhook.Mu.Unlock()
 }
@@ -141,7 +152,9 @@ func (p *Pool) Get() any {
 	var x any
 	if idx >= 0 {
 		x = p.items[idx]
-		copy(p.items[idx:], p.items[idx+1:])
+		for i := idx; i < n-1; i++ {
+			p.items[i] = p.items[i+1]
+		}
 		p.items[n-1] = nil
 		p.items = p.items[:n-1]
 		if simhook.RaceEnabled {
